@@ -657,6 +657,96 @@ fn gen_hist_state(r: &mut Rng, tier: &Tier, out: &mut Vec<String>) {
     }
 }
 
+// ------------------------------------------------------------------ TLS poisoning histories on ONE 4-tuple
+/// offsets of the length / type fields of a ClientHello record (record header excluded: its length stays consistent)
+fn hello_length_fields(h: &[u8]) -> Vec<usize> {
+    let mut v = vec![5usize, 6, 7, 8, 43];                      // handshake type, 24-bit length, session-id length
+    let sid = h[43] as usize;
+    let mut p = 44 + sid;                                          // cipher-suites length
+    if p + 2 > h.len() { return v; }
+    v.extend([p, p + 1]);
+    p += 2 + (((h[p] as usize) << 8) | h[p + 1] as usize);
+    if p >= h.len() { return v; }
+    v.push(p);                                                     // compression methods length
+    p += 1 + h[p] as usize;
+    if p + 2 > h.len() { return v; }
+    v.extend([p, p + 1]);                                          // extensions length
+    p += 2;
+    while p + 4 <= h.len() {                                       // each extension: its length and the first inner length bytes
+        v.extend([p + 2, p + 3]);
+        let l = ((h[p + 2] as usize) << 8) | h[p + 3] as usize;
+        if l > 0 && p + 4 < h.len() { v.push(p + 4); if l > 1 && p + 5 < h.len() { v.push(p + 5); } }
+        p += 4 + l;
+    }
+    v.retain(|&i| i < h.len());
+    v
+}
+/// a complete record (header intact, length consistent) whose body is damaged, mostly in a length field
+fn damaged_hello(r: &mut Rng, h: &[u8]) -> Vec<u8> {
+    let mut x = h.to_vec();
+    let fields = hello_length_fields(h);
+    let n = if r.chance(1, 5) { 2 } else { 1 };
+    for _ in 0..n {
+        let i = if r.chance(5, 6) { *r.pick(&fields[..]) } else { 5 + r.below(x.len() as u64 - 5) as usize };
+        match r.below(8) { 0 => x[i] ^= 0x01, 1 => x[i] ^= 0x80, 2 => x[i] ^= 0xff, 3 => x[i] = 0, 4 => x[i] = 0xff, 5 => x[i] = x[i].wrapping_add(1), 6 => x[i] = x[i].wrapping_sub(1), _ => x[i] ^= 1 << r.below(8) }
+    }
+    x
+}
+/// T line: the parser-outcome letters are recorded by running real readers under the documented flow discipline
+/// (reader created when the gate accepts, dropped on a signature and on an error)
+fn t_case(kind: &str, segs: &[(u64, Vec<u8>)]) -> String {
+    use huginn_net_tls::tls_client_hello_reader::TlsClientHelloReader;
+    let mut flows: std::collections::HashMap<u64, TlsClientHelloReader> = std::collections::HashMap::new();
+    let mut toks = vec![kind.to_string()];
+    for (f, p) in segs {
+        let mut o = 'n';
+        if !p.is_empty() && (flows.contains_key(f) || huginn_net_tls::tls_process::is_tls_traffic(p)) {
+            let rd = flows.entry(*f).or_insert_with(TlsClientHelloReader::new);
+            match rd.add_bytes(p) { Ok(Some(_)) => { o = 's'; flows.remove(f); } Ok(None) => {} Err(_) => { o = 'e'; flows.remove(f); } }
+        }
+        toks.push(format!("{}:{}:{}", f, hex_or_dash(p), o));
+    }
+    toks.join(" ")
+}
+fn split2(r: &mut Rng, b: &[u8]) -> Vec<Vec<u8>> { if b.len() > 12 && r.chance(1, 3) { let k = 5 + r.below(b.len() as u64 - 5) as usize; vec![b[..k].to_vec(), b[k..].to_vec()] } else { vec![b.to_vec()] } }
+fn gen_tls_flow(r: &mut Rng, tier: &Tier, out: &mut Vec<String>) {
+    let tls12: Vec<u8> = { let f = &pcaps()[3][0]; let ip = 14; let ihl = (f[ip] & 15) as usize * 4; let doff = (f[ip + ihl + 12] >> 4) as usize * 4; f[ip + ihl + doff..].to_vec() };
+    let mut fid = 0u64;
+    let build = |r: &mut Rng, fid: &mut u64| -> (Vec<(u64, Vec<u8>)>, Vec<u8>, u64, u64) {
+        let h = if r.chance(1, 6) { tls12.clone() } else { client_hello(r) };
+        *fid += 2; let (f, g) = (*fid, *fid + 1);
+        let mut segs: Vec<(u64, Vec<u8>)> = Vec::new();
+        if r.chance(1, 4) { let h0 = client_hello(r); segs.push((g + 1000, h0)); }                 // an unrelated flow first
+        let nd = 1 + r.below(3);
+        for k in 0..nd {                                                                            // 1..3 damaged records on F
+            let mut d = damaged_hello(r, &h);
+            // mostly end on a record the real parser rejects (complete, header intact, Err): the case the flow must survive
+            if k + 1 == nd && r.chance(2, 3) { for _ in 0..30 { if huginn_net_tls::tls_process::parse_tls_client_hello(&d).is_err() { break; } d = damaged_hello(r, &h); } }
+            for c in split2(r, &d) { segs.push((f, c)); }
+            if r.chance(1, 6) { let n = r.below(30) as usize; segs.push((g + 2000, r.bytes(n))); }
+        }
+        (segs, h, f, g)
+    };
+    // T: model of the flow table vs the real analyzer, per segment
+    for i in 0..tier.scale(900, 9000) {
+        let (mut segs, h, f, g) = build(r, &mut fid);
+        for c in split2(r, &h) { segs.push((f, c)); }                                               // the valid hello on the SAME 4-tuple
+        let h2 = client_hello(r); segs.push((g, h2));                                               // and one on another flow
+        if r.chance(1, 4) { segs.push((f, h.clone())); }                                            // the same 4-tuple once more
+        out.push(t_case(if i % 30 == 0 { "TP" } else { "T" }, &segs));
+    }
+    // H: the same histories against a fresh instance, sequential TLS analyzer, unified analyzer, one-worker TLS pool
+    for (e, count) in [("l", tier.scale(200, 2000)), ("u", tier.scale(40, 400)), ("pl1", tier.scale(24, 240))] {
+        for _ in 0..count {
+            let (segs, h, f, g) = build(r, &mut fid);
+            let junk: Vec<Vec<u8>> = segs.iter().map(|(fl, p)| tls_seg_frame(*fl, p)).collect();
+            let mut probe: Vec<Vec<u8>> = split2(r, &h).iter().map(|c| tls_seg_frame(f, c)).collect();
+            let h2 = client_hello(r); probe.push(tls_seg_frame(g, &h2));
+            out.push(format!("H {} {} | {}", e, join_hex(&junk), join_hex(&probe)));
+        }
+    }
+}
+
 // ------------------------------------------------------------------ inputs at the 64 KiB bounds
 fn gen_big(r: &mut Rng, tier: &Tier, out: &mut Vec<String>) {
     let mut streams: Vec<Vec<u8>> = Vec::new();
@@ -697,4 +787,5 @@ pub fn gen(r: &mut Rng, tier: &Tier, out: &mut Vec<String>) {
     gen_entry_streams(r, tier, out);
     gen_hist(r, tier, out);
     gen_hist_state(r, tier, out);
+    gen_tls_flow(r, tier, out);
 }
